@@ -88,6 +88,17 @@ def choice_diff(req):
             cum = list(itertools.accumulate(ws))
             for k in _boundary_us(cum):
                 check(ws, Fraction(k, TWO32), "weights")
+    # totals in the subnormal range (where u*total may round up to total: the rounding fact A-real hides needs a NORMAL total)
+    for ws in ([5e-324], [5e-324, 5e-324], [1e-320, 2e-320, 5e-324], [0.0, 5e-324]):
+        for k in (0, 1, TWO32 // 2, TWO32 - 2, TWO32 - 1):
+            u = Fraction(k, TWO32)
+            pop = ["g%d" % i for i in range(len(ws))]
+            for form, res in (("weights", _with_pos(u, b.deterministic_choice, "unit", pop, list(ws))),
+                              ("cum_weights", _with_pos(u, b.deterministic_choice, "unit", pop, cum_weights=list(itertools.accumulate(ws))))):
+                evals += 1
+                ok = res["outcome"] == "return" and res["value"] in pop and ws[pop.index(res["value"])] > 0
+                if not ok and len(fails) < limit:
+                    fails.append({"weights": enc(list(ws)), "form": form, "u": "%d/2^32" % k, "expected": "an element of the population with a positive weight (subnormal total)", "observed": res})
     # unweighted path for larger n, error branches
     for n in (1, 2, 3, 7, 64):
         for k in _boundary_us([Fraction(i + 1) for i in range(n)]):
@@ -165,7 +176,7 @@ def ci_grid(req):
     from spec import stats_ref as ref
     ns = req.get("ns", [1, 2, 3, 10, 100, 1000, 10 ** 6, 10 ** 9])
     ps = req.get("ps", [0, 0.001, 0.1, 0.25, 0.5, 0.75, 0.9, 0.999, 1])
-    confs = req.get("confs", [0.001, 0.02, 0.1, 0.5, 0.8, 0.9, 0.95, 0.99, 0.999, 0.999999])
+    confs = req.get("confs", [0.001, 0.02, 0.1, 0.5, 0.8, 0.9, 0.95, 0.99, 0.999, 0.999999, 1 - 2 ** -30, 1 - 2 ** -45])
     extra = req.get("points", [])
     fails, evals = [], 0
     limit = req.get("limit", 5)
@@ -198,7 +209,8 @@ def ci_grid(req):
         if not (res["outcome"] == "raise" and res["exc"] == "NotImplementedError"):
             fail({"method": name, "expected": {"outcome": "raise", "exc": "NotImplementedError"}, "observed": res})
     # z-score: closed form, symmetry, monotone
-    alphas = [i / 2000 for i in range(1, 2000)] + [1e-12, 1e-9, 1e-6, 1 - 1e-6, 1 - 1e-9, 0.4995, 0.5005, 0.49, 0.51]
+    alphas = [i / 2000 for i in range(1, 2000)] + [1e-12, 1e-9, 1e-6, 1 - 1e-6, 1 - 1e-9, 0.4995, 0.5005, 0.49, 0.51,
+                                                     1e-15, 1e-30, 1e-70, 1e-100, 1e-300, 5e-324, 1 - 2 ** -40, 1 - 2 ** -52]
     zs = {}
     for a in alphas:
         evals += 1
@@ -210,9 +222,16 @@ def ci_grid(req):
         zs[a] = v
         if not ref.close(v, ref.z_closed_form(a), rel=1e-12):
             fail({"alpha": a, "expected": ref.z_closed_form(a), "observed": v, "what": "z != sqrt(pi/8)*|logit(alpha)|"})
-        r2 = outcome(st.probit, 1 - a)
-        if r2["outcome"] == "return" and not ref.close(v, float(r2["value"]["__float__"]), rel=1e-6):
-            fail({"alpha": a, "what": "probit not symmetric", "observed": [v, r2]})
+        # symmetry on an exactly complementary float pair (b, 1-b): 1-b is exact for b in [0.5, 1] (Sterbenz), so the
+        # comparison is not polluted by the rounding of 1-a for tiny a
+        b = 1 - a if a < 0.5 else a
+        if 0 < b < 1:
+            evals += 1
+            r1, r2 = outcome(st.probit, 1 - b), outcome(st.probit, b)
+            if r1["outcome"] == "return" and r2["outcome"] == "return" and not ref.close(float(r1["value"]["__float__"]), float(r2["value"]["__float__"]), rel=1e-9):
+                fail({"alpha": 1 - b, "what": "probit not symmetric", "observed": [r1, r2]})
+            elif r1["outcome"] != r2["outcome"]:
+                fail({"alpha": 1 - b, "what": "probit not symmetric (one side raises)", "observed": [r1, r2]})
     for pt in extra:
         evals += 1
         res = outcome(st.confidence_interval, pt["n"], pt["p"], pt["confidence"], pt["method"])
@@ -268,6 +287,10 @@ def lifecycle_diff(req):
     maxlen = req.get("maxlen", 3)
     limit = req.get("limit", 3)
     texts = req.get("texts", LIFECYCLE_TEXTS)
+    if req.get("maxlen", 3) <= 3 and not req.get("texts"):
+        # quick tier: the four-step histories of the thorough tier use the whole alphabet; three-step ones a core subset
+        skip = ('def e2 {', 'def e1 { splitters: uid /* c */', 'def e1 { splitters: uid return "A" weighted 1, "B" weighted 1 ', 'def e1 { splitters: uid return "A" weighted 1 } def e2')
+        texts = [t for t in texts if not t.startswith(skip)]
     inputs = [{"uid": "u1"}, {"uid": "u2"}, {"uid": 17}, {"uid": "u1", "extra": 1}]
     sink = io.StringIO()
 
